@@ -159,6 +159,10 @@ class NodeType:
     ) -> Node | None:
         attrs = self.compute_attrs(attrs)
         frag = Fragment.from_(content)
+        for i in range(frag.child_count):
+            if not self.allows_marks(frag.child(i).marks):
+                # the given content can never be valid here: nothing can be built around it
+                return None
         if frag.size:
             before = self.content_match.fill_before(frag)
             if not before:
